@@ -13,11 +13,13 @@ AFTER_BEH = [("pass",), ("ret", ("resp", RESP_OK)), ("abort", 404),
              ("abortresp", ("base", 200, None, "text/plain", "after-abort")),
              ("throw", 3), ("ret", ("none",)), ("ret", ("obj",))]
 ENDPOINT_BEH = [("ret", ("str", "ok")), ("ret", ("none",)), ("ret", ("obj",)),
-                ("abort", 403), ("abort", 0),
+                ("abort", 403), ("abort", 0), ("throw", 5), ("throw", 6),
                 ("abortresp", ("base", 202, None, "text/plain", "ar")),
                 ("throw", 1), ("throw", 3), ("conn",),
                 ("ret", ("resp", ("nocontent", 204, None)))]
-LEAVES = ["endpoint", "404", "405", "debug", "pre"]
+LEAVES = ["endpoint", "pattern", "default", "404", "405", "debug", "pre",
+          "file", "dir", "403", "debugroot"]
+ENDPOINT_LEAVES = ("endpoint", "pattern", "default")
 
 
 def raising(b):
@@ -42,7 +44,18 @@ def oracle(ctx, sc, ans, trace):
     if bidx != want_b:
         ctx.violation("before-hooks-order", dict(detail, want=want_b))
     runs_endpoint = dispatched and first_stop is None and \
-        sc.leaf[0] == "endpoint"
+        sc.leaf[0] in ENDPOINT_LEAVES
+    # the hook can already see the chosen endpoint on the request
+    for rule, handler in getattr(sc, "seen", []):
+        if sc.leaf[0] not in ENDPOINT_LEAVES:
+            break                       # 404/405/403/built-in: no endpoint
+        if rule is None:
+            ctx.violation("hook-ran-before-endpoint-was-chosen", detail)
+            break
+        if handler != "endpoint":
+            ctx.violation("hook-cannot-see-endpoint",
+                          dict(detail, seen_handler=handler))
+            break
     if len(epos) != (1 if runs_endpoint else 0):
         ctx.violation("endpoint-ran-wrongly", detail)
     if epos:
@@ -96,12 +109,15 @@ def run(ctx):
     take = rng.sample(full, 1200 if ctx.quick else 30000) \
         if len(full) > 30000 or ctx.quick else full
     for hb, ha, eb, leaf in take:
-        lf = ("endpoint", eb) if leaf == "endpoint" else \
+        lf = (leaf, eb) if leaf in ENDPOINT_LEAVES else \
             ("pre", 2) if leaf == "pre" else (leaf,)
         with_handlers = rng.random() < 0.25
         scenarios.append(dc.Scenario(
-            before=hb, after=ha, leaf=lf, debug=(leaf == "debug"),
-            method=rng.choice(["GET", "POST", "HEAD"]),
+            before=hb, after=ha, leaf=lf,
+            debug=(leaf in ("debug", "debugroot")),
+            method=rng.choice(["GET", "POST", "HEAD"])
+            if leaf not in ("file", "dir", "403", "debugroot")
+            else rng.choice(["GET", "HEAD"]),
             shandlers={(403, 2): ("ret", ("str", "u403"))}
             if with_handlers else None,
             ehandlers=[(1, {2: ("ret", ("str", "ubase"))})]
@@ -113,7 +129,7 @@ def run(ctx):
                     for _ in range(3)],
             after=[rng.choice(AFTER_BEH[:1] * 3 + AFTER_BEH)
                    for _ in range(3)],
-            leaf=("endpoint", rng.choice(ENDPOINT_BEH))))
+            leaf=(rng.choice(ENDPOINT_LEAVES), rng.choice(ENDPOINT_BEH))))
     for sc, ans, trace in dc.run_scenarios(ctx, "hooks", scenarios):
         ctx.case(sc.describe(), bool(sc.before or sc.after),
                  {"scenario": sc.describe(), "trace": trace})
@@ -121,8 +137,10 @@ def run(ctx):
         oracle(ctx, sc, ans, trace)
     return ctx.finish(
         "product of 0-2 before hooks x 0-2 after hooks (6/7 behaviours each) "
-        "x 10 endpoint behaviours x request kinds {endpoint, 404, 405, debug "
-        "page, converter failure} (quick: seeded sample), with/without user "
+        "x 12 endpoint behaviours x request kinds {static hit, pattern hit, "
+        "default handler, 404, 405, debug page with and without document "
+        "root, static file, directory listing, directory 403, converter "
+        "failure} (quick: seeded sample), with/without user "
         "status and exception handlers, plus random 3-hook lists; every user "
         "callable records itself in a trace; non-trivial = at least one hook",
         assumptions=["static file / directory leaves are exercised by C12; "
